@@ -656,7 +656,7 @@ def check(rep: Report, tier: str, seed: int) -> None:
     rep.extra["correspondence_disagreements"] = dis
     rep.extra["single_step_cases"] = len(slines)
     rep.extra["single_step_disagreements"] = sdis
-    if rep.broken and not rep.failing:
+    if rep.broken and not rep.unknown_failing():
         search(rep, seed, 1200 if tier == "quick" else 20000, tier)
 
 
